@@ -95,7 +95,17 @@ class Inst(object):
         kw = dict(params)
         key = self.key
         variant = r.choice(["ecb-same-key", "other-iv", "other-key-bit", "toggle-param", "twin"])
+        if mode in ("CCM", "EAX", "GCM", "OCB") and r.random() < 0.4:
+            variant = "other-mac-len"
         try:
+            if variant == "other-mac-len":
+                # same key and nonce (or a nonce that differs in its last bit), another tag length
+                cur = kw.get("mac_len", self.bs if mode == "EAX" else 16)
+                kw["mac_len"] = r.choice([t for t in ((8, 12, 16) if self.bs == 16 else (4, 6, 8)) if t != cur])
+                if r.random() < 0.5 and isinstance(kw.get("nonce"), (bytes, bytearray)) and len(kw["nonce"]):
+                    kw["nonce"] = bytes(kw["nonce"][:-1]) + bytes([kw["nonce"][-1] ^ 1])
+                kw.pop("msg_len", None)
+                kw.pop("assoc_len", None)
             if variant == "ecb-same-key":
                 kw = dict(self.kw)
                 mode = "ECB"
